@@ -874,8 +874,17 @@ class JSONVisitor:
         default_ids_as_string = (
             node.options["defaults"] if "defaults" in node.options else ""
         )
-        option_ids: List[str] = split_option_str(option_ids_as_string)
-        default_ids: List[str] = split_option_str(default_ids_as_string)
+        # A missing or empty option has already been reported: carry on without its values
+        option_ids: List[str] = (
+            split_option_str(option_ids_as_string)
+            if option_ids_as_string.strip()
+            else []
+        )
+        default_ids: List[str] = (
+            split_option_str(default_ids_as_string)
+            if default_ids_as_string.strip()
+            else []
+        )
 
         # expect at least 1 option_ids
         if len(option_ids) < 1:
@@ -921,7 +930,9 @@ class JSONVisitor:
                     )
                     continue
                 ordered_spec_composables.append(composable_from_spec)
-                specified_default_id = default_ids[index]
+                specified_default_id = (
+                    default_ids[index] if index < len(default_ids) else ""
+                )
                 allowed_values_dict = {
                     option.id: option for option in composable_from_spec.options
                 }
@@ -1041,7 +1052,12 @@ class JSONVisitor:
         node: n.ComposableContent,
         spec_composables: List[Composable],
     ) -> None:
-        selection_ids = split_option_str(node.options.get("selections", ""))
+        selections_as_string = node.options.get("selections", "")
+        selection_ids = (
+            split_option_str(selections_as_string)
+            if selections_as_string.strip()
+            else []
+        )
         selections: Dict[str, str] = {}
         # validate all selection ids
         for idx in range(len(selection_ids)):
